@@ -36,7 +36,16 @@ _scratch = None
 def scratch():
     global _scratch
     if _scratch is None:
-        _scratch = tempfile.mkdtemp(prefix="verif-run-")
+        base = None
+        # a RAM-backed directory makes the many small cache directories of the drivers cheap
+        if os.path.isdir("/dev/shm") and os.access("/dev/shm", os.W_OK) and os.environ.get("VERIF_NO_SHM") is None:
+            try:
+                st = os.statvfs("/dev/shm")
+                if st.f_bavail * st.f_frsize > 4 << 30:
+                    base = "/dev/shm"
+            except OSError:
+                base = None
+        _scratch = tempfile.mkdtemp(prefix="verif-run-", dir=base)
     return _scratch
 
 
